@@ -3,7 +3,6 @@
 from __future__ import annotations
 
 import datetime
-import itertools
 import re
 import sys
 from collections import defaultdict
@@ -231,7 +230,8 @@ class RenderContext:
                 return obj["first"]
             except (KeyError, IndexError, TypeError):
                 if isinstance(obj, Mapping) and obj:
-                    return next(itertools.islice(obj.items(), 1))
+                    first = next(iter(obj))
+                    return (first, obj[first])
                 if isinstance(obj, Sequence):
                     return obj[0]
                 raise
@@ -268,16 +268,17 @@ class RenderContext:
                 return await _get_item(obj, "first")
             except (KeyError, IndexError, TypeError):
                 if isinstance(obj, Mapping) and obj:
-                    return next(itertools.islice(obj.items(), 1))
+                    first = next(iter(obj))
+                    return (first, await _get_item(obj, first))
                 if isinstance(obj, Sequence):
-                    return obj[0]
+                    return await _get_item(obj, 0)
                 raise
         if key == "last":
             try:
                 return await _get_item(obj, "last")
             except (KeyError, IndexError, TypeError):
                 if isinstance(obj, Sequence):
-                    return obj[-1]
+                    return await _get_item(obj, -1)
                 raise
 
         return await _get_item(obj, key)
